@@ -102,9 +102,15 @@ TABLE = {
              "(co_await lock(), lock().wait(), try_lock()): MutualExclusion, GrantOnce, NoDoubleActivation, DoormanNeverQueued, "
              "WokenOnlyWhenGranted. Every edge of each mix's state graph is replayed as a thread schedule on the real cocls::mutex "
              "(real threads and coroutines, controlled scheduler yielding before and after each instrumented atomic), comparing the "
-             "request stack, the queue, activation counters, critical-section membership and each thread's pending operation after every step.",
-        note="bounds: 2-4 parties, one lock/critical-section/release round each; release by discard / co_await / destructor on the owning "
-             "thread (release from a foreign thread or through a thread pool not exercised); weak CAS assumed not to fail spuriously; "
+             "request stack, the queue, activation counters, critical-section membership and each thread's pending operation after every step. "
+             "spec/Mutex/MutexRounds.tla keeps that grain for 2-3 rounds per party and adds what only shows with repeated use: the "
+             "coroutine run queue (a new owner resumed by a coroutine that discards the suspend point is only queued; co_await release() "
+             "transfers at once; ordinary code runs the new owner nested), ownership objects handed to a helper thread and released "
+             "there, one ownership object move-assigned in every round and (variant) one awaiter object awaited again in every round; "
+             "invariants MutualExclusion, GrantOnce (grants <= requests, activations <= grants), OnePlace, FIFO, NoLostRequest; replayed "
+             "the same way (helper threads included).",
+        note="bounds: 2-4 parties with one round each (Mutex.tla), 2-3 parties with 2-3 rounds (MutexRounds.tla); release by discard / "
+             "co_await / destructor on the owning thread or by a helper thread (release through a thread pool not exercised); weak CAS assumed not to fail spuriously; "
              "'resumed while in the act of suspending' is read as double activation (DESIGN 6/C07)",
         design_ref="6/C07, 3.3, 4.2, 9.2"),
     "C08": dict(
@@ -112,7 +118,9 @@ TABLE = {
         text="Same specification and replay as C07 with the ghost sequences arrival (order in which parked requests were published) and "
              "served: FIFO (served is a prefix of arrival), NoLostRequest (at quiescence every request was granted exactly once, the mutex "
              "is unlocked and nothing is queued), TryLockSound, NoStuckState and Termination under weak fairness, for arrival orders of "
-             "up to 4 waiters and try_lock against owners and waiters; all schedules replayed on the real mutex.",
+             "up to 4 waiters and try_lock against owners and waiters; all schedules replayed on the real mutex. MutexRounds.tla checks the "
+             "same properties when parties come back for further rounds (re-arrival behind waiters, hand-over through the run queue, "
+             "release on a helper thread).",
         note="bounds as C07; release styles discard/await/destructor; liveness on the specification, on the code: no replayed schedule "
              "ends with a blocked thread",
         design_ref="6/C08, 3.3"),
